@@ -13,9 +13,10 @@ func init() {
 		Explanation: "Decides the pairing rules behind 'the map, the capacity accounting and IterValues agree on what is resident': " +
 			"(R-C13-PAIRDEL) on the applier every removal from the policy is paired with removal of the same key from the map: tombstone arm and expiry sweep call policy.Del(k) and store.Del(k,…) together on every path; every victim returned by cachePolicy.Add is visited by a loop without early exit that calls storedItems.Del(victim.Key,…), reached on both the admitted and the rejected path; Cache.Del's tombstone is unconditional (so the policy learns of every immediate map removal); " +
 			"(R-C13-PAIRADD) storedItems.Set(i) is called only on the admitted side of cachePolicy.Add(i.Key,…) for the same i and has no other caller in the library; " +
+			"(R-C13-ARMS) the applier applies policy.Add only to itemNew, policy.Update only to itemUpdate, policy.Del only to itemDelete items, and sampledLFU.add is called by defaultPolicy.Add alone (an update can never create a charge); " +
 			"(R-C13-ACCOUNT) every writer of the accounted cost keeps used == sum(keyCosts) (shared with C03); " +
 			"(R-C13-EXPINDEX) in lockedMap.Set/Update/Del every map store/delete is accompanied, on the same path and under the same write lock, by the matching expirationMap call with the old and new expirations of that entry, and no index call happens on a path that leaves the map unchanged; " +
-			"(R-C13-CLEAR) Cache.Clear passes cachePolicy.Clear (which clears admit and evict under the lock), storedItems.Clear (all shards, then expiryMap.clear) and Metrics.Clear when metrics are on; " +
+			"(R-C13-CLEAR) Cache.Clear passes, after the stop/done handshake, cachePolicy.Clear (which clears the cost accounting under the lock) and storedItems.Clear; " +
 			"(R-C13-ITER) IterValues visits every shard, yields each entry at most once per pass, and a true callback result leaves both loops. " +
 			"NOT decided: the equality at quiescent points itself; colliding keys (excluded by the property).",
 		Run: runC13,
@@ -305,13 +306,80 @@ func clearResetRule(c *Ctx, ruleID string) {
 	})
 }
 
+// clearResetParts evaluates clearResetRule and keeps the obligations of the named parts only
+// (cache: Clear calls policy.Clear and store.Clear after the handshake; metrics; evict: the cost
+// accounting is cleared; admit: sketch and doorkeeper are cleared; expiry: the expiry index is
+// cleared with the shards). Each property takes the parts that are necessary conditions of it.
+func clearResetParts(c *Ctx, ruleID string, parts ...string) {
+	want := map[string]bool{}
+	for _, p := range parts {
+		want[p] = true
+	}
+	partOf := func(construct string) string {
+		switch {
+		case construct == "Cache.Clear#Metrics.Clear":
+			return "metrics"
+		case strings.HasPrefix(construct, "Cache.Clear#"):
+			return "cache"
+		case construct == "defaultPolicy.Clear#sampledLFU.clear":
+			return "evict"
+		case construct == "defaultPolicy.Clear#tinyLFU.clear" || construct == "tinyLFU.clear":
+			return "admit"
+		case construct == "shardedMap.Clear#expiry" || construct == "expirationMap.clear":
+			return "expiry"
+		}
+		return "" // shape problems (no handshake, …) concern every part
+	}
+	sub := &Ctx{L: newLedger(c.L.Prop), P: c.P, Tier: c.Tier}
+	sub.L.P = c.P
+	clearResetRule(sub, ruleID)
+	for _, o := range sub.L.Obls {
+		if pt := partOf(o.Construct); pt == "" || want[pt] {
+			c.L.add(o)
+		}
+	}
+	for f := range sub.L.funcs {
+		c.L.Analysed(f)
+	}
+}
+
+// sweepCursorRule: every value written to expirationMap.lastCleanedBucketNum (constructor, clear,
+// cleanup) is a cleanupBucket(...) number. The sweep takes the buckets (cursor, cleanupBucket(now)];
+// a cursor set from storageBucket(now) is one bucket ahead and the current storage bucket is
+// skipped: keys filed there after a Clear are never swept. Shared with C14.
+func sweepCursorRule(c *Ctx, ruleID string) {
+	L, P := c.L, c.P
+	c.Group(ruleID, "expirationMap.lastCleanedBucketNum", func() {
+		n := 0
+		for _, fn := range P.SrcFuncs {
+			if fn.Pkg != P.Pkgs["ristretto"] {
+				continue
+			}
+			sts := fieldStoresIn(fn, "expirationMap", "lastCleanedBucketNum")
+			if len(sts) == 0 {
+				continue
+			}
+			tb := newTB(fn)
+			for _, st := range sts {
+				n++
+				vt := tb.T(st.Val)
+				if !Match("call[cleanupBucket](_)", vt, nil) {
+					L.Fail(ruleID, "cursor@"+fname(fn), "the sweep cursor is set to "+vt.String()+", not to a cleanupBucket(...) number: the writers of lastCleanedBucketNum must agree with the sweep's upper bound cleanupBucket(now), otherwise a bucket is skipped (never swept) or swept early", st.Pos())
+				}
+			}
+		}
+		L.Check(n >= 3, ruleID, "expirationMap.lastCleanedBucketNum", fmt.Sprintf("%d writer(s), each a cleanupBucket(...) number", n), fmt.Sprintf("only %d writer(s) of the sweep cursor found (constructor, clear, cleanup expected)", n), 0)
+	})
+}
+
 func runC13(c *Ctx) {
 	L, P := c.L, c.P
 	L.Rule("R-C13-PAIRDEL", "policy removal is always paired with map removal of the same key (tombstone, sweep, victims, Del's tombstone)", 6)
-	L.Rule("R-C13-PAIRADD", "store.Set only on the admitted side of policy.Add for the same item; no other caller", 2)
+	L.Rule("R-C13-PAIRADD", "store.Set only on the admitted side of policy.Add for the same item; no other caller; accounting entries created only by defaultPolicy.Add", 3)
+	L.Rule("R-C13-ARMS", "applier: itemNew → policy.Add, itemUpdate → policy.Update, itemDelete → policy.Del, each on its own arm only", 3)
 	L.Rule("R-C13-ACCOUNT", "used == sum(keyCosts) preserved by every writer (shared with C03)", 4)
-	L.Rule("R-C13-EXPINDEX", "map mutation and expiry-index call paired on every path under the write lock", 3)
-	L.Rule("R-C13-CLEAR", "Clear resets policy (admit+evict), map (all shards), expiry index and metrics", 8)
+	L.Rule("R-C13-EXPINDEX", "map mutation and expiry-index call paired on every path under the write lock; the index files/unfiles the key in the bucket of the given expiration, old bucket first", 6)
+	L.Rule("R-C13-CLEAR", "Cache.Clear empties the cost accounting (policy.Clear → evict.clear) and the map (store.Clear) together, after the applier was stopped", 3)
 	L.Rule("R-C13-ITER", "IterValues: all shards, each entry at most once, stop propagates out of both loops", 3)
 
 	tombstoneRule(c, "R-C13-PAIRDEL")
@@ -359,9 +427,12 @@ func runC13(c *Ctx) {
 			"store.Set(i) is reachable without the policy having admitted i.Key (block path "+pathString(path)+"): the entry would be resident but not charged", sets[0].Pos())
 	})
 
+	addersRule(c, "R-C13-PAIRADD")
+	applierArmsRule(c, "R-C13-ARMS")
 	accountingInvRule(c, "R-C13-ACCOUNT")
 	expIndexRule(c, "R-C13-EXPINDEX")
-	clearResetRule(c, "R-C13-CLEAR")
+	bucketIndexRule(c, "R-C13-EXPINDEX")
+	clearResetParts(c, "R-C13-CLEAR", "cache", "evict")
 
 	// ---- R-C13-ITER
 	c.Group("R-C13-ITER", "shardedMap.IterValues", func() {
@@ -487,5 +558,91 @@ func runC13(c *Ctx) {
 			okOuter = okOuter && found
 		}
 		L.Check(okOuter && allShards, "R-C13-ITER", "shardedMap.IterValues#shards", "ranges over all shards; a stop request ends the whole enumeration", "the shard loop does not cover all shards or continues after the callback asked to stop", outer.Pos())
+	})
+}
+
+// applierArmsRule: in the applier each item flag drives exactly its own policy operation:
+// itemNew → cachePolicy.Add, itemUpdate → cachePolicy.Update, itemDelete → cachePolicy.Del.
+// (Add on the update arm re-admits a key the sweep or an eviction removed in the meantime.)
+// Shared by C13, C14, C03 and C17.
+func applierArmsRule(c *Ctx, ruleID string) {
+	L, P := c.L, c.P
+	c.Group(ruleID, "Cache.processItems#arms", func() {
+		fn := P.Fn("ristretto", "Cache", "processItems")
+		L.Analysed(fname(fn))
+		tb := newTB(fn)
+		sel, _, I := applierSelect(fn, tb)
+		if sel == nil {
+			L.Undecided(ruleID, "Cache.processItems#arms", "applier select not found", fn.Pos())
+			return
+		}
+		for _, arm := range []struct{ flag, callee string }{{"itemNew", "defaultPolicy.Add"}, {"itemUpdate", "defaultPolicy.Update"}, {"itemDelete", "defaultPolicy.Del"}} {
+			k := P.Const("ristretto", arm.flag).Value.Value.ExactString()
+			edges := edgesWhere(fn, tb, "eq(fld[flag]("+I+"),c["+k+"])", nil, true)
+			calls := callsTo(fn, arm.callee)
+			cons := "Cache.processItems#" + arm.flag
+			if len(calls) != 1 || len(edges) == 0 {
+				L.Fail(ruleID, cons, fmt.Sprintf("expected exactly one %s call behind the %s arm, found %d call(s) / %d arm edge(s)", arm.callee, arm.flag, len(calls), len(edges)), fn.Pos())
+				continue
+			}
+			call := calls[0].(ssa.Instruction)
+			if tb.T(calls[0].Common().Args[1]).String() != "fld[Key]("+I+")" {
+				L.Fail(ruleID, cons, arm.callee+" is applied to "+tb.T(calls[0].Common().Args[1]).String()+", not to the received item's key", call.Pos())
+				continue
+			}
+			bad, path := reach(after(sel), isInstr(call), isInstr(sel), cutSet(edges))
+			if bad != nil {
+				L.Fail(ruleID, cons, arm.callee+" is reachable without the received item's flag being "+arm.flag+" (block path "+pathString(path)+")", call.Pos())
+				continue
+			}
+			// and the arm does reach it on every path (before the next receive)
+			okAll := true
+			nArm := 0
+			for e := range edges {
+				tgt := e.From.Succs[e.Succ]
+				if tgt != call.Block() && !tgt.Dominates(call.Block()) {
+					continue
+				}
+				// the arm is the flag test from which the call is reached without any further test of the flag
+				// (earlier tests of the same flag, like the Config.Cost guard, are not the arm)
+				isFlagIf := func(in ssa.Instruction) bool {
+					iff, isIf := in.(*ssa.If)
+					return isIf && strings.Contains(tb.T(iff.Cond).String(), "fld[flag]("+I+")")
+				}
+				if r, _ := reach(Pos{tgt, 0}, isInstr(call), isFlagIf, nil); r == nil {
+					continue
+				}
+				nArm++
+				if r, _ := reach(Pos{tgt, 0}, func(in ssa.Instruction) bool { return in == ssa.Instruction(sel) || isReturn(in) }, isInstr(call), nil); r != nil {
+					okAll = false
+				}
+			}
+			if nArm == 0 {
+				okAll = false
+			}
+			L.Check(okAll, ruleID, cons, "the "+arm.flag+" arm performs "+arm.callee+"(i.Key, …) on every path, and only that arm does", "the "+arm.flag+" arm can skip "+arm.callee, call.Pos())
+		}
+	})
+}
+
+// addersRule: an accounting entry is created only by the admission path (defaultPolicy.Add), which
+// the applier pairs with store.Set. Any other caller of sampledLFU.add charges for a key the map does
+// not hold. Shared by C13 and C03.
+func addersRule(c *Ctx, ruleID string) {
+	L, P := c.L, c.P
+	c.Group(ruleID, "callers of sampledLFU.add", func() {
+		n := 0
+		for _, fn := range P.SrcFuncs {
+			if fn.Pkg != P.Pkgs["ristretto"] {
+				continue
+			}
+			for _, ci := range callsTo(fn, "sampledLFU.add") {
+				n++
+				if fname(fn) != "defaultPolicy.Add" {
+					L.Fail(ruleID, "adder:"+fname(fn), "creates an accounting entry (sampledLFU.add) outside the admission path defaultPolicy.Add: the key is charged for although no map entry is filed with it (an update/delete arriving after an eviction re-creates the charge)", ci.Pos())
+				}
+			}
+		}
+		L.Check(n >= 1, ruleID, "callers of sampledLFU.add", fmt.Sprintf("%d call(s), all in defaultPolicy.Add", n), "no call of sampledLFU.add found", 0)
 	})
 }
